@@ -12,6 +12,7 @@ import (
 	"path/filepath"
 	"runtime"
 	"runtime/debug"
+	"runtime/pprof"
 	"sort"
 	"strings"
 	"testing"
@@ -148,6 +149,31 @@ func execRun(t *testing.T, sc *Scenario, fixed []uint32, zeroFrom int, keepLog b
 		if keepLog {
 			res.DLog = sim.dlog
 		}
+		// goroutines of sts that have no way to stop (a crashed server's Serve,
+		// the stage's handlers, the log writer) stay behind, blocked for good in
+		// the finished bubble, and with them everything they point to: cut the
+		// simulation loose from them, or a long batch grows by megabytes a second
+		for tp, owner := range liveTaps {
+			if owner == sim {
+				delete(liveTaps, tp)
+			}
+		}
+		delete(agedOut, sim)
+		delete(askedSinceAged, sim)
+		stagesMu.Lock()
+		delete(stagesOf, sim)
+		stagesMu.Unlock()
+		nt, ob, w := sim.net, sim.ob, sim.world
+		*sim = Sim{}
+		if nt != nil {
+			*nt = simNet{}
+		}
+		if ob != nil {
+			*ob = Obs{}
+		}
+		if w != nil {
+			*w = World{}
+		}
 	}
 	res.WallMs = time.Since(start).Milliseconds()
 	return res
@@ -257,6 +283,11 @@ func (s *Sim) run() {
 	s.shutdownAll()
 	synctest.Wait()
 	s.killDeadGates()
+	s.retireStages()
+	for i := 0; i < 3; i++ {
+		synctest.Wait()
+		s.killDeadGates()
+	}
 }
 
 var modes = map[string]func(*Sim){}
@@ -368,6 +399,12 @@ func TestSim(t *testing.T) {
 		}
 	}
 	os.Remove(curPath)
+	if p := os.Getenv("VERIF_GODUMP"); p != "" { // development aid: what is left over from finished runs
+		if f, err := os.Create(p); err == nil {
+			pprof.Lookup("goroutine").WriteTo(f, 1)
+			f.Close()
+		}
+	}
 }
 
 func sig(v Violation) string { return v.Prop + "/" + v.Oracle }
